@@ -82,6 +82,40 @@ func c13Scenarios(tier string) []*Scenario {
 			return "", "", fmt.Sprint(len(dgs), " datagrams")
 		}
 		out = append(out, sc)
+		// M0: everything is reported by one goroutine into a roomy queue, then Close. The batching and the
+		// clock goroutine (one tick) only get to run at Close: a timestamp must still be the time of the call.
+		sc0 := &Scenario{Property: "C13", Name: "M0-queued-then-close-" + kind, Ticks: 1, BoundSet: true, Bound: 1}
+		sc0.Body = func(x *Run) {
+			s := newFastSink()
+			x.Vals["sink"] = s
+			x.Cleanup = append(x.Cleanup, s.close)
+			x.Vals["tmin"] = rt.NowNanos()
+			r, err := m3.NewReporter(m3.Options{HostPorts: []string{s.addr}, Service: "svc", Env: "test", CommonTags: map[string]string{"ck": "cv"}, Protocol: m3Proto(kind), MaxQueueSize: 8})
+			if err != nil {
+				x.failf("new-reporter", "%v", err)
+				return
+			}
+			r.AllocateCounter("n", map[string]string{"a": "b"}).ReportCount(1)
+			r.AllocateGauge("m", nil).ReportGauge(1.5)
+			x.Vals["tmax"] = rt.NowNanos()
+			if err := r.Close(); err != nil {
+				x.failf("close-error", "%v", err)
+			}
+		}
+		sc0.Check = func(x *Run, o *rt.Outcome) (string, string, string) {
+			s := x.Vals["sink"].(*fastSink)
+			dgs := s.drain(1)
+			got, cl, det := m3Collect(kind, dgs, x.Vals["tmin"].(int64), x.Vals["tmax"].(int64))
+			if cl != "" {
+				return cl, det, "viol"
+			}
+			want := []string{wantKey("n", 1, 1, 0, 0, map[string]string{"a": "b"}), wantKey("m", 2, 0, 1.5, 0, nil)}
+			if cl, det := compareMultisets(got, want); cl != "" {
+				return cl, det, "viol"
+			}
+			return "", "", fmt.Sprint(len(dgs), " datagrams")
+		}
+		out = append(out, sc0)
 	}
 	return out
 }
